@@ -135,7 +135,7 @@ pub struct R1 {
 impl Fam for R1 {
     const NAME: &'static str = "R1{v: Vec<E>}";
     fn all(tier: Tier) -> Vec<Self> {
-        vecs(&es(), tier.pick(2, 3)).into_iter().map(|v| R1 { v }).collect()
+        vecs(&es(), tier.pick(3, 4)).into_iter().map(|v| R1 { v }).collect()
     }
 }
 
@@ -148,7 +148,7 @@ pub struct R2 {
 impl Fam for R2 {
     const NAME: &'static str = "R2{m: Map<String, Vec<E>>, z}";
     fn all(tier: Tier) -> Vec<Self> {
-        let dom = vecs(&es(), tier.pick(1, 2));
+        let dom = vecs(&es(), tier.pick(2, 2));
         maps(&["a", "b c"], &dom).into_iter().map(|m| R2 { m, z: 1 }).collect()
     }
 }
@@ -397,7 +397,7 @@ impl Fam for R9 {
     fn all(tier: Tier) -> Vec<Self> {
         let inn = inners();
         let dom = vec![Any::I(1), Any::S("s".into()), Any::T(inn[0].clone()), Any::T(inn[5].clone()), Any::A(vec![1])];
-        let xs = vecs(&dom, tier.pick(2, 3));
+        let xs = vecs(&dom, tier.pick(3, 4));
         let small = vecs(&dom, 2);
         let mut v = Vec::new();
         for x in &xs {
